@@ -94,12 +94,23 @@ class Check:
         kv.update(self.spec.get("run_kv", {}))
         if os.environ.get("VERIF_PROFILE"):
             kv["profile"] = os.environ["VERIF_PROFILE"]
+        kv.update(self.extra_kv())
         return ("run", kv, None)
+
+    @staticmethod
+    def extra_kv():
+        out = {}
+        for t in os.environ.get("VERIF_EXTRA_KV", "").split():
+            if "=" in t:
+                k, v = t.split("=", 1)
+                out[k] = v
+        return out
 
     def exec_job(self, params, ops, extra=None):
         kv = {"prop": self.prop}
         kv.update({k: v for k, v in params.items()})
         kv.update(self.spec.get("run_kv", {}))
+        kv.update(self.extra_kv())
         if extra:
             kv.update(extra)
         return ("exec", kv, ops)
@@ -183,6 +194,8 @@ class Check:
                     "engine": self.spec["engine"], "property": self.prop, "config": cfg, "seed": kv.get("seed"), "params": params, "ops": ops,
                     "expect": {"class": cls, "hash": final.kv.get("hash"), "msg": msg}, "minimisation_executions": used,
                 }
+                if self.extra_kv():
+                    replay["exec_extra"] = self.extra_kv()
                 # known finding?
                 kf = next((f for f in findings if finding_matches(f, self.prop, cls, msg)), None)
                 if kf:
